@@ -43,6 +43,17 @@ def import_eao():
     return eao
 
 
+def fresh_import():
+    """a second, independent instance of the repository's modules: module- and class-level state that earlier calls may have left behind
+    (caches on classes, module globals) cannot reach objects created from it"""
+    global eao, MODS, _installed
+    for k in [k for k in sys.modules if k == 'eaopack' or k.startswith('eaopack.')]:
+        del sys.modules[k]
+    eao = None
+    _installed = False
+    return install()
+
+
 # what the harness passed to the constructors of the asset classes (outermost call), kept OUTSIDE the objects: the reference model reads the
 # user's inputs from here, not from the attributes an __init__ may have stored differently.  (object id -> (object, arguments))
 CTOR_ARGS = {}
